@@ -45,7 +45,10 @@ import Vata.Properties.Dispatch
   Both end certify-then-trust: `true` only with the final antichain / relation after the Boolean checks `nfaUpCertB` /
   `congrCertB`, `false` only with a word after the check `acceptsW A w && !acceptsW B w`; `none` = fuel exhausted (one
   unit per picked pair).  The macro-state cache and the memo tables of the C++ (`subsetMap_`, `usedRules_`) are
-  transparent and not modelled: macro-states are sorted duplicate-free lists compared by value.
+  transparent and not part of these models: macro-states are sorted duplicate-free lists compared by value.  (The classes
+  this reading rests on – `OrdVector`, the ordered antichain work-list, a cache that never frees with memo tables keyed by
+  addresses – have models and theorems of their own: `Vata/Properties/Util_OrdVector.lean`, `Util_Antichain.lean`,
+  `Util_Cache.lean`; see the end of the file for what connects them to the algorithms and what does not.)
 * **Certificate principles.**  `NfaUpCert A B X`: a set of pairs (state, macro-state) that subsumes the start pairs, is
   closed under the post-image *up to subsumption* and has no bad pair (antichain).  `CongrCert A B R`: disjoint operands,
   the start macro-states of `A ⊎ B` and `B` congruent modulo `R`, and `R` a *bisimulation up to congruence*
@@ -360,26 +363,130 @@ example : (⟨"CONGR_BREADTH_NOSIM", 33, "faCongr", "ExplicitFACongrFunctorCache
 -- not trivially true: the breadth word with the depth-first product set would be refused
 example : Dispatch.faConsistent ⟨"X", 33, "faCongr", "-", "depth", "true", "identity"⟩ = false := by decide
 
+/-! ### ONE theorem for "the antichain algorithm and the congruence algorithm in depth-first and breadth-first order" -/
+
+/-- the three algorithms of the statement -/
+inductive C09Alg where
+  | antichain | congrDepth | congrBreadth
+  deriving DecidableEq, Repr
+
+/-- the option word of an algorithm (`ANTICHAINS_NOSIM`, `CONGR_DEPTH_NOSIM`, `CONGR_BREADTH_NOSIM`) -/
+def C09Alg.word : C09Alg → Nat
+  | .antichain => 0 | .congrDepth => 1 | .congrBreadth => 33
+
+/-- the model of `CheckInclusion` with that option word (arbitrary operands; the dispatcher sanitises them first) -/
+def C09Alg.model (a : C09Alg) (A B : NFA) (fuel : Nat) : Option (Bool × NfaIncl.Cert) :=
+  match a with
+  | .antichain => checkNfaInclAC A B fuel
+  | .congrDepth => checkNfaInclCongr A B false fuel
+  | .congrBreadth => checkNfaInclCongr A B true fuel
+
+/-- the explicit fuel bound (one unit per picked pair) of the sanitised operands -/
+def C09Alg.bound (a : C09Alg) (A B : NFA) : Nat :=
+  match a with
+  | .antichain => NfaIncl.fuelBoundAC (nfaSanitize A B).1 (nfaSanitize A B).2
+  | _ => NfaIncl.fuelBoundCongr (nfaSanitize A B).1 (nfaSanitize A B).2
+
+/-- **every algorithm has a model that is exact and total, and all of them agree** – the property as one theorem: for
+each of the three algorithms every verdict of its model is the truth of `L(A) ⊆ L(B)`, the model returns that verdict for
+every fuel above the explicit bound, and any two verdicts (of any two algorithms, and of the reference `inclW`) on the same
+pair are equal.  No hypothesis on `A`, `B` -/
+theorem C09_every_algorithm_exact_total (a : C09Alg) (A B : NFA) :
+    (∀ fuel b c, a.model A B fuel = some (b, c) → (b = true ↔ InclW A B)) ∧
+    (∀ fuel, a.bound A B < fuel →
+      (InclW A B → ∃ c, a.model A B fuel = some (true, c)) ∧ (¬ InclW A B → ∃ c, a.model A B fuel = some (false, c))) ∧
+    (∀ (a' : C09Alg) f f' b b' c c', a.model A B f = some (b, c) → a'.model A B f' = some (b', c') → b = b') ∧
+    (∀ f f₀ b b₀ c, a.model A B f = some (b, c) → inclW A B f₀ = some b₀ → b = b₀) := by
+  have ex : ∀ (a : C09Alg) fuel b c, a.model A B fuel = some (b, c) → (b = true ↔ InclW A B) := by
+    intro a fuel b c h
+    cases a with
+    | antichain => exact checkNfaInclAC_iff h
+    | congrDepth => exact checkNfaInclCongr_iff h
+    | congrBreadth => exact checkNfaInclCongr_iff h
+  refine ⟨ex a, ?_, fun a' f f' b b' c c' h h' => ?_, fun f f₀ b b₀ c h h₀ => ?_⟩
+  · cases a with
+    | antichain => exact fun _ hf => checkNfaInclAC_complete A B hf
+    | congrDepth => exact fun _ hf => checkNfaInclCongr_complete A B hf
+    | congrBreadth => exact fun _ hf => checkNfaInclCongr_complete A B hf
+  · have e := ex a f b c h
+    have e' := ex a' f' b' c' h'
+    cases b <;> cases b' <;> simp_all
+  · have e := ex a f b c h
+    have e₀ := inclW_iff A B f₀ b₀ h₀
+    cases b <;> cases b₀ <;> simp_all
+
+-- all three answer on the regression pair of the repaired subset memo – `true` one way, `false` the other
+example : ∀ a : C09Alg, (a.model NfaInclEx.exMemoA NfaInclEx.exMemoB 20).map (·.1) = some true ∧
+    (a.model NfaInclEx.exMemoB NfaInclEx.exMemoA 20).map (·.1) = some false := by
+  intro a; cases a <;> decide +kernel
+
+/-- the three algorithms are cases of the regenerated dispatcher, under the words their names say: algorithm bit for the
+congruence algorithm, search-order bit for breadth-first -/
+theorem C09_algorithms_are_dispatch_cases (a : C09Alg) :
+    (Dispatch.words Gen.faDispatch).contains a.word = true ∧
+    Dispatch.has a.word Dispatch.fAlg = decide (a ≠ .antichain) ∧
+    Dispatch.has a.word Dispatch.fOrder = decide (a = .congrBreadth) ∧
+    Dispatch.has a.word Dispatch.fSim = false ∧ Dispatch.has a.word Dispatch.fEquiv = false := by
+  cases a <;> decide
+
 /-!
+## closed since the last refresh of this file
+
+* "No totality theorem for the references `inclW` / `W.inclRef`": `C09_reference_total`, `C09_reference_bound`
+  (`Vata/Properties/RefTotal.lean`; bound `fuelBoundW [A, B] = 2^(|start ∪ targets of A| + |… of B|)`).
+* The property as ONE statement over the three algorithms: `C09_every_algorithm_exact_total`,
+  `C09_algorithms_are_dispatch_cases`.
+* **"Transparent caches are assumed transparent"** – partly closed, class by class (each class is modelled as coded and
+  compared with the real class by histories):
+  - macro-states are `OrdVector<StateType>`: `==` is equality and `IsSubsetOf` inclusion of the denoted sets, `<` is a strict
+    total order, whatever history built the objects (`Util_OrdVector_eq`, `Util_OrdVector_isSubsetOf`,
+    `Util_OrdVector_lt_strict_total_order`, `Util_OrdVector_history`) – "sorted duplicate-free lists compared by value" is what
+    the real class is;
+  - the work-list `next_` of the antichain functor is an `OrderedAntichain2C`: with the `Less` of
+    `explicit_finite_incl_fctor_cache.hh` and the subset comparator, work-list and antichain always hold the same nodes, every
+    `get` returns a least stored pair, the antichain invariant holds, in any interleaving of `AddToNext` and `get`
+    (`Util_Antichain_worklist_history`, `Util_Antichain_get_least`, `Util_Antichain_offer_step`);
+  - a cache that never frees needs no invalidation: in a history in which no object dies every memo entry keyed by two
+    addresses is the function value on the two objects at these addresses – the situation of `MacroStateCache` with
+    `subsetMap_` / `subsetNotMap_` (`Util_Cache_memo_sound_noDeath`).
+* Start symbols of the operands: the word automata WITH their start symbols are modelled in `Vata/NfaStart.lean`
+  (`Vata/Properties/C10_StartSymbols.lean`); the inclusion functors never mention `startStateToSymbols_` (read off
+  `explicit_finite_incl*.hh`), so the models of this file are models on `NFAS.toNFA`.
+* From `argv` to the option word: `Util_CliArgs_incl_word_spec`, `Util_CliArgs_every_selection_reachable_partial`; the two
+  `EQUIV` words are the only implemented ones that no command line produces, and `equiv` always throws
+  (`Util_CliArgs_equiv_selections_unreachable`).
+
 ## not yet proved
 
 * The selections **with a simulation relation** (`ANTICHAINS_SIM`, `CONGR_DEPTH_SIM`) and the **equivalence** functor
   (`CONGR_DEPTH_EQUIV_NOSIM`, `CONGR_BREADTH_EQUIV_NOSIM`: `ExplicitFACongrEquivFunctor`) are implemented according to
-  `C09_dispatch` but have no model; nothing is proved about pruning modulo a simulation on word automata.
-* **Transparent caches are assumed transparent.**  The macro-state cache (equal sets share one address; it never
-  identifies two EMPTY sets), the subset memo `subsetMap_` / `subsetNotMap_` of the antichain functor (repaired: only
-  established facts are recorded) and `usedRules_` of the congruence functor are not modelled; the models compare
-  macro-states by value.  The argument why they do not change a verdict is in the header of `Vata/NfaIncl.lean`; it is
-  not a theorem (the regression pair `exMemoA` / `exMemoB` of the memo defect is among the examples).  Iteration orders of
-  hash containers are replaced by list order; the third ordering criterion of `next_` (an address) by insertion order.
+  `C09_dispatch` but have no model; nothing is proved about pruning modulo a simulation on word automata.  (From the
+  command line none of the four can be run to a verdict: `ComputeSimulation` throws `NotImplementedException` for
+  `expl_fa`, and `equiv` throws "Equivalence not implemented" – the first read off `explicit_finite_sim.cc`, the second
+  `Util_CliArgs_equiv_selections_unreachable`.)
+* **Between the algorithm models and the container models there is no theorem.**  `NfaIncl.runAC` keeps `antichain_` and
+  `next_` in its own lists; "these lists are the content of an `OrderedAntichain2C` history" is not stated.  Still assumed
+  for the real functors: (a) the third criterion of the real `Less` is an ADDRESS (`StateSet*`), total on stored pairs only
+  if the macro-state cache interns equal sets – it does, except that `MacroStateCache::insert` never shares the EMPTY
+  macro-state (`areEqual` answers false for two empty sets; read off the source, not modelled; see the end of
+  `Vata/Properties/Util_Cache.lean`), and the instantiation proved total in `Util_Antichain_worklist_history` compares the
+  sets themselves; (b) `MacroStateCache` / `MapToList`
+  themselves are not run by the cache harness (they are private to the functors); (c) `usedRules_` of the congruence
+  functor and the subset memo of the antichain functor (repaired: only established facts are recorded) are covered by (the
+  no-death case of) the memo theorem only as far as they are memo tables of a pure function; the argument why they do
+  not change a verdict is in the header of `Vata/NfaIncl.lean` (the regression pair `exMemoA` / `exMemoB` of the memo defect
+  is among the examples).  Iteration orders of hash containers are replaced by list order.
+  Items (b)/(c) are now CLOSED for inclusion by `Vata/Properties/C09_Caches.lean`: `C09_antichain_caches_transparent`
+  (unconditional) and `C09_congruence_caches_transparent` (exact equality for sanitised operands; with the library's
+  macro-state cache never sharing the empty set the exploration order can differ on negative instances:
+  `C09_empty_set_quirk`, verdicts do not), with the regressions `C09_regression_D8`, `C09_regression_usedRules_swapped`.
 * **Numbering of `nfaSanitize`.**  The model numbers the states in order of first occurrence, the C++ in the order of its
   hash containers; all theorems are independent of the numbering (they use injectivity and the disjoint ranges only), but
   "the model hands out the same numbers as the code" is not claimed.
 * **Link between the dispatch table and the models.**  `C09_dispatch` is about the table regenerated from the sources;
   which Lean model stands for which callee (`faAntichain` ↦ `checkNfaInclAC`, `faCongr` with `depth` / `breadth` ↦
-  `checkNfaInclCongr · · false / true`) is the reading of the table, not a theorem.
-* The references `inclW` / `W.inclRef` are total above the explicit bound `fuelBoundW [A, B]` (`C09_reference_total` in
-  `Vata/Properties/RefTotal.lean`).  The models are total with explicit fuel bounds.  All bounds are exponential
-  worst-case bounds, not tight.
+  `checkNfaInclCongr · · false / true`, i.e. `C09Alg.model`) is the reading of the table, not a theorem.
+* The models and the references are total with explicit fuel bounds; all bounds are exponential worst-case bounds, not
+  tight.
 -/
 end Vata.Props
